@@ -413,6 +413,23 @@ def check(case):
     if n_times >= 2:
         sort_clause('inner_sort', build_inner_sorted, first=False)
 
+    # ---- composed filters sorted individually, then composed again (composition of sorted compositions) ----
+    def build_nested_sorted():
+        import chi
+        inner, cols = [], []
+        j0 = 0
+        for p, grp in zip(parts, groups):
+            local = [o - j0 for o in s['order1'] if j0 <= o < j0 + p['nt']]
+            fi = rf.build(grp, obs[:, :, j0:j0 + p['nt']], True)
+            fi.sort_times(np.array(local, dtype=int))
+            inner.append(fi)
+            cols += [j0 + k for k in local]
+            j0 += p['nt']
+        return chi.ComposedPopulationFilter(inner), np.array(cols, dtype=int)
+
+    if n_times >= 2:
+        sort_clause('nested_inner_sort', build_nested_sorted, first=False)
+
     if len(parts) > 1:
         with case.clause('additive'):
             tot = 0.0
